@@ -93,6 +93,28 @@ def h_two_tags(m, ctx, nv=2, nt=3, le=b'\n'):
     check_bytes_equal(ctx, env.read_file(OUT), spec.output, 'write text injected through a tag was modified / scanned again', data)
 
 
+def h_long_first_line(m, ctx, fill, second=b'second', trailing=True):
+    """a source whose first line is longer than the 8 KiB I/O buffers: `fill` x's + 2 symbolic bytes over {x, CR} + LF, then a
+    second line with its own (symbolic) terminator: reproduced line for line with the first line's ending"""
+    it = Interp(m, ctx)
+    it.max_loop_visits = 20000
+    tail = ctx.fresh_bytes('b', 2, [120, 13])
+    t2 = ctx.fresh_bytes('c', 1, [120, 13])
+    source = tuple([120] * fill) + tail + (10,) + tuple(second) + t2 + (10,)
+    se = SymEnv(ctx, inc_len=1, out_len=0)
+    env = se.install(it, source)
+    r = run_preprocess(m, it, 'Build', False, trailing)
+    data = {'op': 'pp', 'source': syms_of(source), 'inc': syms_of(se.inc_content), 'cmd_results': [], 'trailing': trailing,
+            'source_shown': 'x*%d + %s' % (fill, show_bytes(source[fill:]))}
+    spec = specpp.process(ctx, source, se, trailing)
+    if (r.idx == 0) != spec.ok:
+        violation(ctx, 'long first line: verdict differs', data)
+    if r.idx != 0:
+        return
+    ctx.cover('long_first_line')
+    check_bytes_equal(ctx, env.read_file(OUT), spec.output, 'source with a first line longer than 8 KiB is not reproduced line for line', data)
+
+
 TOKENS = [b'TXTPP#run x', b'-TXTPP#', b'TXTPP#tag A', b'A', b'-', b'// TXTPP#include f', b'x']
 
 
@@ -182,6 +204,13 @@ def jobs(tier):
             js.append({'name': 'raw text n=%d trailing=%s' % (n, tr), 'harness': (H, 'h_raw'), 'params': {'n': n, 'trailing': tr},
                        'split': 4 if n >= 6 else 1})
     js.append({'name': 'two tags holding write text', 'harness': (H, 'h_two_tags'), 'params': {'nv': 2, 'nt': 3 if quick else 4}, 'split': 8})
+    for fill in ((8189, 8190) if quick else (8188, 8189, 8190, 8191, 16390)):
+        js.append({'name': 'first line of %d+2 bytes, second line text' % fill, 'harness': (H, 'h_long_first_line'), 'params': {'fill': fill},
+                   'max_steps': 8_000_000})
+    # a write whose text starts on the line after the directive (empty first argument), at the start and in the middle of a file
+    for sc in (['write bare', 'cont prefix'], ['text', 'write bare', 'cont prefix', 'text'], ['write bare', 'cont bare', 'cont prefix']):
+        js.append({'name': 'write with an empty first line: ' + '/'.join(sc), 'harness': ('props.c01', 'h_conform'),
+                   'params': {'nlines': len(sc), 'menu_name': 'small', 'fixed': sc, 'inc_len': 0, 'out_len': 0}})
     js.append({'name': 'text no-trailing', 'harness': (H, 'h_text'), 'params': {'lens': [3, 2], 'les': (b'\n',), 'final_newline': True, 'trailing': False}})
     shapes = [[(0, 1)], [(1, 1), (0, 0)], [(None, 3), (2, 1)], [(3, 1), (3, 0), (4, 1)], [(5, 0), (None, 2)], [(6, 2), (1, 0), (None, 2)]]
     if not quick:
@@ -204,7 +233,7 @@ BOUNDS = {'quick': 'directive-free sources: every byte string of 1-5 bytes over 
                    'TXTPP#tag A, a stored tag name, the prefix itself, ...) + up to 3 symbolic bytes, with and without a stored tag; two tags holding 2 symbolic bytes of write text over {A,B,x} used on a line of 3 symbolic bytes',
           'thorough': 'raw 1-8 bytes; text: 0-11 bytes, 2 lines up to 8+3; write round trip: 11 shapes x LF/CRLF x tag x terminator'}
 ASSUMPTIONS = ['D1, D2; escaped text has no leading blank on the first line and no trailing blanks (as the property states)']
-COVERS_REQUIRED = ['two_tags_used', 'raw_text', 'text_only', 'roundtrip', 'roundtrip_with_tag']
+COVERS_REQUIRED = ['long_first_line', 'two_tags_used', 'raw_text', 'text_only', 'roundtrip', 'roundtrip_with_tag']
 
 
 def replay(native, v):
